@@ -18,6 +18,10 @@ func TestVerif(t *testing.T) {
 	switch e.Prop {
 	case "C01", "C03", "C17":
 		h = txHarness{prop: e.Prop}
+	case "C01H2":
+		h = host2Harness{}
+	case "C01BIG":
+		h = bigHarness{}
 	case "C02":
 		h = c02Harness{}
 	case "C07":
